@@ -176,6 +176,9 @@ pub enum K {
     RefGone { tag: u32, hk: Hk, c: u16 },
     /// harness actor value dropped
     ObjDrop { obj: Uid, tag: u32 },
+    /// a harness actor value was created through `Default::default()` (inside the library: an on-demand service
+    /// instance, or the fresh value of a recreate-from-default restart); tag = 9000 + type
+    ObjNew { obj: Uid, tag: u32 },
     /// stream probe: item `n` yielded by harness stream `sid`
     StreamYield { sid: Uid, item: Uid },
     StreamEnd { sid: Uid },
